@@ -833,7 +833,10 @@ fn abort_with(k: &mut Kernel, fd: Fd, reason: AbortReason) {
     // so nobody will ever `close` it. Hand it to `reap_closed`, otherwise
     // the aborted child keeps its binding and 4-tuple entry forever and
     // swallows a later SYN that reuses the tuple.
-    if matches!(st.tcb.as_ref().map(|t| t.state), Some(TcpState::SynReceived)) {
+    if matches!(
+        st.tcb.as_ref().map(|t| t.state),
+        Some(TcpState::SynReceived)
+    ) {
         st.fd_closed = true;
     }
     if let Some(tcb) = st.tcb.as_mut() {
